@@ -35,12 +35,13 @@ type Case struct {
 	Sim            sim.Case `json:"sim"`
 	CompressUTXO   bool     `json:"compress_utxo"`
 	CompressBlocks bool     `json:"compress_blocks"`
+	MaxDataFile    uint64   `json:"max_data_file,omitempty"` // block data rolls over to a new file beyond this size (0: one file)
 	Crash          string   `json:"crash,omitempty"`    // "<name>#<n>"; empty in a generated case = enumerate all
 	Truncate       string   `json:"truncate,omitempty"` // "<file>:<length>" applied after a clean run
 }
 
 func (c Case) opts() env.Options {
-	return env.Options{CompressUTXO: c.CompressUTXO, CompressBlocks: c.CompressBlocks}
+	return env.Options{CompressUTXO: c.CompressUTXO, CompressBlocks: c.CompressBlocks, MaxDataFile: c.MaxDataFile}
 }
 
 func TestMain(m *testing.M) {
@@ -622,6 +623,8 @@ func genCase(t *rapid.T) Case {
 	c := Case{Sim: sim.GenCase(t, profile)}
 	c.CompressUTXO = rapid.IntRange(0, 3).Draw(t, "cutxo") == 0
 	c.CompressBlocks = rapid.Bool().Draw(t, "cblocks")
+	// the rarely used data-file size limit (client: Memory.MaxDataFileMB): blocks then live in several data files
+	c.MaxDataFile = rapid.SampledFrom([]uint64{0, 0, 0, 700, 2000, 6000}).Draw(t, "maxdatafile")
 	return c
 }
 
@@ -655,6 +658,8 @@ func genReorgAfterSnapshot(t *rapid.T) Case {
 	}
 	c.CompressUTXO = rapid.IntRange(0, 3).Draw(t, "cutxo") == 0
 	c.CompressBlocks = rapid.Bool().Draw(t, "cblocks")
+	// the rarely used data-file size limit (client: Memory.MaxDataFileMB): blocks then live in several data files
+	c.MaxDataFile = rapid.SampledFrom([]uint64{0, 0, 0, 700, 2000, 6000}).Draw(t, "maxdatafile")
 	return c
 }
 
@@ -713,6 +718,8 @@ func genFailedReorgUnflushed(t *rapid.T) Case {
 	}
 	c.CompressUTXO = rapid.IntRange(0, 3).Draw(t, "cutxo") == 0
 	c.CompressBlocks = rapid.Bool().Draw(t, "cblocks")
+	// the rarely used data-file size limit (client: Memory.MaxDataFileMB): blocks then live in several data files
+	c.MaxDataFile = rapid.SampledFrom([]uint64{0, 0, 0, 700, 2000, 6000}).Draw(t, "maxdatafile")
 	return c
 }
 
